@@ -371,7 +371,7 @@ def run_history(case):
 def graphs(n, slots):
     out = []
     vals = ["none", "leaf"] + [f"n{i}" for i in range(n)]
-    for kinds in itertools.product(["dc", "list", "dict"], repeat=n):
+    for kinds in itertools.product(["dc", "dclocal", "list", "dict"], repeat=n):
         for edges in itertools.product(itertools.product(vals, repeat=slots), repeat=n):
             out.append({"kinds": list(kinds), "edges": [list(e) for e in edges]})
     return out
@@ -388,8 +388,16 @@ def run_graph(case):
 
     g = case["graph"]
     nodes = []
+
+    def local_node():
+        # a dataclass whose annotations contain an unresolvable forward reference (the way recursive models are written in local
+        # scopes / tests): type hints cannot be resolved, so cattrs does not walk into nested instances on its own
+        cls = dataclasses.make_dataclass("LNode", [("a", typing.Optional["LNode"], dataclasses.field(default=None)),
+                                                   ("b", typing.Optional["LNode"], dataclasses.field(default=None))])
+        return cls()
+
     for k in g["kinds"]:
-        nodes.append(GNode() if k == "dc" else ([] if k == "list" else {}))
+        nodes.append(GNode() if k == "dc" else (local_node() if k == "dclocal" else ([] if k == "list" else {})))
 
     def val(s):
         if s == "none":
@@ -402,7 +410,7 @@ def run_graph(case):
     for i, (k, es) in enumerate(zip(g["kinds"], g["edges"])):
         for j, e in enumerate(es):
             v = val(e)
-            if k == "dc":
+            if k in ("dc", "dclocal"):
                 setattr(nodes[i], "ab"[j % 2], v)
             elif k == "list":
                 nodes[i].append(v)
